@@ -12,7 +12,7 @@ import json
 
 import numpy as np
 
-from harness import engine
+from harness import engine, memo
 
 PROP = "C02"
 LEVEL = "model_checking"
@@ -120,6 +120,7 @@ def run(rep: engine.Report, tier: str, seed: int):
     results = engine.parallel_replay("harness.props.c02", "replay", sel)
     engine.collect(rep, sel, results, key=lambda c: (c["cfg"], c["_h"]))
     rep.traces_validated = rep.evaluations
+    memo.run_family(rep, ["loader_load_inplace"])
     rep.samples = [dict(cfg=c["cfg"], outcome=c["outcome"], expect_head=c["expect"][:6]) for c in sel[:4]]
     rep.rule = (
         "TLC enumerates (a) every (position in half pixels, box length 1..6, order, tomogram length) on one axis for the "
